@@ -294,6 +294,16 @@ var targets = []target{
 		StructFields: map[string][]string{"Claim": {"MainnetExitRoot", "RollupExitRoot", "GlobalExitRoot"}},
 		TypeAlias:    map[string]string{"bridgesync.Claim": "Claim"},
 		Funcs:        []string{"baseFlow.verifyClaimGERs"}},
+	{File: "aggsender/query/l1info_tree_data_query.go", Out: "GenClaimsGuard.v",
+		Module: "aggsender/query/l1info_tree_data_query.go (CheckIfClaimsArePartOfFinalizedL1InfoTree: the test the aggchain-prover flow makes before it builds against a root)",
+		Hash:   true, Ctx: "L1InfoTreeDataQuerier",
+		CtxCalls: map[string]ctxCall{"GetInfoByGlobalExitRoot": {Var: "infoByGER", Params: []ty{hashT},
+			Rets: []ty{{k: kOpt, sub: []ty{{k: kStruct, name: "L1InfoTreeLeaf"}}}, {k: kErr}}}},
+		Structs:      []string{"Claim", "Root", "L1InfoTreeLeaf"},
+		StructsFrom:  map[string]string{"Claim": "bridgesync/processor.go", "Root": "tree/types/types.go", "L1InfoTreeLeaf": "l1infotreesync/processor.go"},
+		StructFields: map[string][]string{"Claim": {"GlobalExitRoot"}, "Root": {"Index"}, "L1InfoTreeLeaf": {"L1InfoTreeIndex"}},
+		TypeAlias:    map[string]string{"bridgesync.Claim": "Claim", "treetypes.Root": "Root"},
+		Funcs:        []string{"L1InfoTreeDataQuerier.CheckIfClaimsArePartOfFinalizedL1InfoTree"}},
 	{File: "aggsender/flows/flow_base.go", Out: "GenGetParams.v",
 		Module: "aggsender/flows/flow_base.go (GetCertificateBuildParamsInternal: which certificate the flows set out to build), on top of Gen/GenBuildParams.v",
 		IntLit: true, Hash: true, Ctx: "baseFlow", Imports: []string{"Gen.GenBuildParams"}, DropParams: []string{"ctx"},
@@ -1658,7 +1668,7 @@ func (t *tr) block(list []ast.Stmt, en *env, tail string, ind string) string {
 			}
 		}
 	}
-	if ds := t.nilDerefs(s, en); len(ds) > 0 && en.panicVar != "" && !en.inLoop {
+	if ds := t.nilDerefs(s, en); len(ds) > 0 && en.panicVar != "" && (!en.inLoop || en.loopRet) {
 		// the statement dereferences a pointer that no test in sight shows to be non-nil: Go panics when it is nil. The generated
 		// function takes what happens then as a parameter (a Section variable of its result type): a theorem about it for every
 		// value of that parameter is a theorem about the runs that do not panic, and cannot be proved if a panic is reachable
@@ -1676,7 +1686,11 @@ func (t *tr) block(list []ast.Stmt, en *env, tail string, ind string) string {
 			some.deref[types.ExprString(d)] = bound
 		}
 		t.usePanic(en)
-		return "match " + pc + " with\n" + ind + "  | None => " + en.panicVar + "\n" + ind + "  | Some " + bound + " =>\n" + ind + "    " +
+		pv := en.panicVar
+		if en.inLoop { // inside a fold with early returns: the panic value leaves the loop like a returned value
+			pv = t.loopTail(en, en.panicVar)
+		}
+		return "match " + pc + " with\n" + ind + "  | None => " + pv + "\n" + ind + "  | Some " + bound + " =>\n" + ind + "    " +
 			t.block(list, some, tail, ind+"    ") + "\n" + ind + "  end"
 	}
 	switch v := s.(type) {
